@@ -309,10 +309,23 @@ theorem base_conserved_partial_single (os : List Order) (hw : ∀ o ∈ os, Wf o
     matchAtSinglePrice_account (newBook os) p hp (newBook_ok os hw) (newBook_nodup os hnd) b' q h
   exact ⟨x, h1, h2, h3, h4, fun hl => by rw [h5 hl, h4]⟩
 
+/-- **`OrderBook.Match` on any book of orders with distinct ids — base coin, PARTIAL; quote coin, exact.**
+The returned `quoteCoinDiff` is exactly the quote coin paid by the buyers minus the quote coin received by the sellers
+(what is left in escrow is what is sent to the dust collector); and the base coin received by the buyers equals the base coin
+paid by the sellers **if** no sell-side distribution — in the single-price step at the last price or in any iteration of the
+two-sided loop — lost a remainder (`matchLossless`, a decidable ghost computed along the run; the buy side never loses
+anything).  `ticksFilled` sums the decreases of the open amounts, which for a buyer is the base coin received and for a seller
+the base coin paid (`Delta.buy_recv`, `Delta.sell_paid`). -/
+theorem base_conserved_partial_match (os : List Order) (hw : ∀ o ∈ os, Wf o) (hids : (os.map (·.id)).Nodup)
+    (lp : Int) (hlp : 0 < lp) (b' : Book) (mp q : Int) (h : matchBook (newBook os) lp = .ok b' mp q) :
+    q = ticksQuote (newBook os).buys b'.buys + ticksQuote (newBook os).sells b'.sells ∧
+    (matchLossless (newBook os) lp = true →
+      ticksFilled (newBook os).buys b'.buys = ticksFilled (newBook os).sells b'.sells) :=
+  matchBook_account (newBook os) lp hlp (newBook_ok os hw) (newBook_ids os hids) b' mp q h
+
 /-- **one iteration of the two-sided loop of `Match`** (`DistributeOrderAmountToTick` on a buy tick and on a sell tick with
 the same amount `X ≤` both ticks' matchable totals, match.go:283-294): the buy tick is filled for exactly `X`; the sell tick
-too if nothing is lost; both returned quote differences are exact.  (The composition over the iterations is not carried
-out in Lean; the monitor `base_conserved` checks it on every real result.) -/
+too if nothing is lost; both returned quote differences are exact (the building block of `base_conserved_partial_match`). -/
 theorem base_conserved_partial_step (bt st : List Order) (X p : Int) (hp : 0 < p) (hX : 0 ≤ X)
     (hb : ∀ o ∈ bt, Wf o ∧ o.dir = .buy) (hs : ∀ o ∈ st, Wf o) (hbn : bt.Nodup) (hsn : st.Nodup)
     (hXb : X ≤ totalMatchable bt p)
@@ -358,6 +371,9 @@ theorem base_conserved_counterexample :
     lossless 3 (sortOrders [d2s1, d2s2]) 16000 100000000000000 = false := by
   refine ⟨by decide, by decide, by decide, by decide, by decide⟩
 
+/-- on the D2 witness the ghost of `base_conserved_partial_match` is false (the theorem does not apply there) -/
+example : matchLossless (newBook d2Orders) 90000000000000 = false := by decide
+
 /-! ## non-vacuity: the hypotheses are satisfiable on non-trivial books -/
 
 def exBuy1 : Order := { id := 0, kind := 0, oid := 7, dir := .buy, price := 1100000000000000000, amount := 10000,
@@ -382,6 +398,9 @@ def exResult : Option (Int × Int × List (Nat × Int × Int × Int)) :=
 
 example : exResult =
     some (1000000000000000000, 0, [(0, 0, 10000, 10000), (1, 3000, 2000, 2000), (2, 0, 12000, 12000)]) := by rfl
+
+/-- the hypotheses of `base_conserved_partial_match` hold on the example (distinct ids, nothing lost) -/
+example : (exOrders.map (·.id)).Nodup ∧ matchLossless (newBook exOrders) 1000000000000000000 = true := by decide
 
 example : (fill_within_limits exOrders ex_wf 1000000000000000000 (by decide)).1 =
     (fill_within_limits exOrders ex_wf 1000000000000000000 (by decide)).1 := rfl
